@@ -28,6 +28,14 @@ def single_slot(tier):
         cases.append(("slot:dyntext", st, ("el", "p", [], [("dyntext", 0)])))
         cases.append(("slot:attr", st, ("el", "p", [("a", "title", s)], [])))
         cases.append(("slot:dynattr", st, ("el", "input", [("adyn", "value", 0)], [])))
+    # the same string LITERAL (one `&'static str`) as a text node first and as attribute values afterwards, and the other way round: the
+    # driver passes static text and attribute values as literals in these cases (`synclit`), as `view!` does for string literals
+    for s in strings:
+        if len(s) <= 1 or len(s) > 2 or any(c in s for c in "<>&\"'"):
+            st = {"s": {}, "b": {}, "l": {}}
+            cases.append(("slot:literal", st, ("el", "div", [], [("el", "p", [], [("text", s)]), ("el", "span", [("a", "title", s)], []),
+                                                                 ("el", "i", [("a", "data-x", s)], [("text", s)])])))
+            cases.append(("slot:literal", st, ("el", "div", [("a", "title", s)], [("text", s), ("el", "b", [("a", "lang", s)], [])])))
     return cases
 
 
@@ -230,7 +238,7 @@ def main(argv):
         chk.violation({"property": PID, "broken": "harness build", "output": outb[-2000:]}, no_input=True)
         return chk.finish()
     cases = gen(a.tier, rng)
-    text = "\n".join("(seq (sync %s %s))" % (viewgen.sx_state(st), viewgen.sx_view(v)) for _, st, v in cases) + "\n"
+    text = "\n".join("(seq (%s %s %s))" % ("synclit" if tag == "slot:literal" else "sync", viewgen.sx_state(st), viewgen.sx_view(v)) for tag, st, v in cases) + "\n"
     rc, so, se = vlib.run_driver(binp, text)
     blocks = so.rstrip("\n").split("\n==\n")
     if rc != 0 or len(blocks) != len(cases):
